@@ -6,6 +6,19 @@ HERE = os.path.dirname(os.path.dirname(os.path.abspath(__file__)))
 PROPS = [json.loads(l)['id'] for l in open(os.path.join(HERE, 'properties.jsonl'))]
 
 CHECKS = {
+ 'C05': dict(category='proof', design_ref='DESIGN.md section 4 (C05)',
+    text='compress_code is proved (loop invariant with ghost item-boundary lists, callee contract of _find_repeatable_block '
+         'itself proved with two nested loop invariants and termination variants) to emit, for EVERY text, a stream that is '
+         'well formed by an independent declarative description of the :c: format (literal / escaped literal / block with '
+         '3<=len<=17 and 1<=offset<=produced, byte-by-byte copy semantics) and denotes exactly that text (+ the _update60 '
+         'compatibility suffix); decompress_code is proved, for EVERY well-formed stream (not only produced ones, overlapping '
+         'references included) and every header length, to return the text that description denotes; get_bytes_from_code / '
+         'get_code_from_bytes are proved for layout, header, fit refusal and the raw path.',
+    note='Trusted: pyvc VC generator, z3/cvc5 with quantified hypotheses. The composition decode(encode(x)) == x follows by '
+         'matching the two contracts (same predicate); that matching is not a machine-checked obligation and is exercised by '
+         'a bounded native run (labelled bounded). Text without NUL, <= 0xffff bytes; "_update60 in text" is an '
+         'uninterpreted predicate. Preconditions with quantifiers are covered by concrete witnesses.',
+    technique='contract-based deductive verification (loop invariants + ghost state over the real loops, z3/cvc5) against a declarative format spec'),
  'C15': dict(category='proof', design_ref='DESIGN.md section 4 (C15)',
     text='The real unicode_to_p8scii loop is proved (loop invariant: cursor at a glyph boundary, decoded prefix == original '
          'bytes; termination variant) to return bs for EVERY text that is a concatenation of table spellings of a byte string '
